@@ -45,6 +45,7 @@ impl NodeDel {
             verifying_key: self.verifying_key.clone(),
             signature: self.signature.clone(),
             entity_name: None,
+            enable_full_text: false,
         }
     }
 }
